@@ -628,10 +628,28 @@ fn ascii_text(rng: &mut Rng, n: usize) -> Vec<u8> {
 }
 
 /// n bytes of valid UTF-8 mixing 1-4 byte characters (exact length)
+/// code points at which Unicode-aware string code changes behaviour: every White_Space character, C0 / C1 controls,
+/// combining marks (non-NFC sequences), compatibility characters that normalisation rewrites, soft hyphen, zero-width
+/// characters, BOM, the last code points of the planes
+pub const SPECIAL_CHARS: [u32; 44] = [
+    0x09, 0x0A, 0x0B, 0x0C, 0x0D, 0x20, 0x85, 0xA0, 0x1680, 0x2000, 0x2001, 0x2002, 0x2007, 0x200A, 0x2028, 0x2029, 0x202F, 0x205F, 0x3000,
+    0x7F, 0x80, 0x9F, 0xAD, 0x0301, 0x0308, 0x0327, 0x212B, 0x2126, 0xFB01, 0xFF21, 0x1E9B, 0x0130, 0x00DF, 0x200B, 0x200D, 0xFEFF,
+    0xFFFD, 0xFFFF, 0x10FFFF, 0x22, 0x5C, 0xC0, 0xE9, 0x30DE,
+];
 fn utf8_text(rng: &mut Rng, n: usize) -> Vec<u8> {
     let mut v: Vec<u8> = vec![];
+    let special = rng.chance(1, 2);
     while v.len() < n {
         let left = n - v.len();
+        if special && rng.chance(1, 3) {
+            let c = char::from_u32(*rng.pick(&SPECIAL_CHARS)).unwrap_or('x');
+            if c.len_utf8() <= left {
+                // a base letter before a combining mark makes a non-NFC sequence
+                let mut b = [0u8; 4];
+                v.extend_from_slice(c.encode_utf8(&mut b).as_bytes());
+                continue;
+            }
+        }
         let w = rng.range(1, 4.min(left as u64)) as usize;
         let c = match w {
             1 => rng.range(0x20, 0x7E) as u32,
@@ -656,10 +674,11 @@ fn utf8_text(rng: &mut Rng, n: usize) -> Vec<u8> {
 /// quoted-string material: the alphabet the grammar distinguishes (code points, not bytes: U+C0..U+FD followed
 /// by the right number of U+80..U+BF is what `utf8_nonascii` accepts)
 fn qs_text(rng: &mut Rng, n: usize) -> Vec<u8> {
-    const ALPHA: [&str; 33] = [
+    // U+85 and U+A0 are "continuation" code points of the grammar AND Unicode white space (char::is_whitespace)
+    const ALPHA: [&str; 39] = [
         "a", "z", "!", "#", "[", "]", "~", " ", "\t", "\r", "\n", "\r\n", "\r\n ", " \r\n", "\"", "\\", "\\\"", "\\a",
         "\\\r", "\\\n", "\u{0}", "\u{7f}", "\u{80}", "\u{bf}", "\u{c0}", "\u{e9}", "\u{f0}", "\u{f8}", "\u{fd}", "\u{fe}",
-        "\u{ff}", "\u{100}", "\u{20ac}",
+        "\u{ff}", "\u{100}", "\u{20ac}", "\u{85}", "\u{a0}", "\u{c0}\u{a0}", "\u{c0}\u{85}", "\u{2028}", "\u{3000}",
     ];
     let mut v = vec![];
     for _ in 0..n {
@@ -668,12 +687,12 @@ fn qs_text(rng: &mut Rng, n: usize) -> Vec<u8> {
     v
 }
 
-const QS_MID: [&str; 20] = [
-    "a", "Z", "!", "#", "~", " ", "\t", " \r\n ", "\r\n\t", "\\\"", "\\\\", "\\a", "\\\u{0}", "\\\u{7f}", "\u{c0}\u{80}",
+const QS_MID: [&str; 24] = [
+    "\u{c0}\u{a0}", "\u{c0}\u{85}", "\u{e9}\u{a0}\u{85}", "\u{df}\u{a0}", "a", "Z", "!", "#", "~", " ", "\t", " \r\n ", "\r\n\t", "\\\"", "\\\\", "\\a", "\\\u{0}", "\\\u{7f}", "\u{c0}\u{80}",
     "\u{df}\u{bf}", "\u{e9}\u{80}\u{bf}", "\u{f0}\u{80}\u{81}\u{bf}", "\u{f8}\u{80}\u{80}\u{80}\u{80}",
     "\u{fd}\u{80}\u{81}\u{82}\u{83}\u{bf}",
 ];
-const QS_EDGE: [&str; 7] = ["a", "0", "!", "~", "\\a", "\u{c0}\u{80}", "\\\\"];
+const QS_EDGE: [&str; 10] = ["a", "0", "!", "~", "\\a", "\u{c0}\u{80}", "\\\\", "\u{c0}\u{a0}", "\u{c0}\u{85}", "\u{e9}\u{80}\u{a0}"];
 
 /// a text the grammar accepts as quoted_text and that is already trimmed (n "items")
 fn qs_valid(rng: &mut Rng, n: usize) -> Vec<u8> {
